@@ -338,7 +338,7 @@ fn gen_invalid(rng: &mut Rng, f: &Field, inj: &mut Inject) -> Val {
             }
         }
         T::Union(fs, _) => (Val::UnitVariant(fs.len() as u32 + rng.below(3) as u32, "Nope".into()), "unknown_variant"),
-        T::Dictionary(..) => (Val::Int(IK::I32, 5), "wrong_kind"),
+        T::Dictionary(..) => (Val::Seq(vec![]), "wrong_kind"),   // integers are accepted (stored as their text), like in plain string columns
         T::Utf8 | T::LargeUtf8 | T::Utf8View => (Val::Seq(vec![]), "wrong_kind"),
         T::Null => (Val::Int(IK::I32, 0), "wrong_kind"),
         _ => (Val::Struct(vec![("q".into(), Val::Bool(true))], 0), "wrong_kind"),
